@@ -4,7 +4,7 @@
    run-time panic (slice or index out of range, explicit panic); the theorems say that no input
    whatsoever reaches Panic. *)
 From Verif Require Import Prelude Gen Frame FrameProofs SwitchLabel SwitchLabelProofs Table Control Forward
-  LinkFrame LinkFrameProofs Address AddressProofs Dns DnsProofs Malformed MalformedProofs TranslatedDec.
+  LinkFrame LinkFrameProofs Address AddressProofs Dns DnsProofs Malformed MalformedProofs TranslatedDec TranslatedImp.
 
 (* Tie to the code: every bounds check the models contain is present in the source and dominates
    the slice or index expression it protects (go/ast, regenerated on every run). *)
@@ -112,3 +112,11 @@ Theorem C13_source_ping_header_is_model : forall d o1 o2, bytes_ok d ->
   dres_ping (length d) (Gen.go_parsePingHeader d o1 o2) = forget_code (ping_split (length d) (nth 1 d 0) (o1 && o2)).
 Proof. intros d o1 o2 H. apply go_ping_header_is_model; [exact H | reflexivity]. Qed.
 Print Assumptions C13_source_ping_header_is_model.
+
+(* the rotation as translated from the source never evaluates an index or slice expression beyond
+   the block, never hands PutUvarint a slot that is too small and never reaches its own panic,
+   for any block and any uint16 return label *)
+Theorem C13_source_rotate_no_panic : forall block ret, ret < 65536 ->
+  Gen.go_NextRotateSwitchBlock block (Z.of_N ret) <> IPanic.
+Proof. intros block ret H. apply go_rotate_no_panic; [exact H | reflexivity]. Qed.
+Print Assumptions C13_source_rotate_no_panic.
